@@ -399,6 +399,7 @@ def install(ex):
     I['_ZSt24__throw_out_of_range_fmtPKcz'] = _throw_std('_ZTISt12out_of_range')
     I['_ZSt20__throw_out_of_rangePKc'] = _throw_std('_ZTISt12out_of_range')
     install_gsl_error(ex)
+    install_complex(ex)
     install_string(ex)
 
 
@@ -498,6 +499,15 @@ def install_string(ex):
         return st.heap_alloc(cap + 1, 'new').base
     I['_ZNSt7__cxx1112basic_stringIcSt11char_traitsIcESaIcEE9_M_createERmm'] = create
 
+    def to_string(ex_, st, args, ins, name):
+        # std::to_string(int/unsigned): formatting is never the subject; produce the decimal text for concrete values, '?' otherwise
+        v = args[1]
+        txt = b'?' if isinstance(v, Term) or v is X.UNDEF else str(v).encode()
+        _str_write(ex, st, args[0], txt, fresh=True)
+        return None
+    for n_ in ('_ZNSt7__cxx119to_stringEj', '_ZNSt7__cxx119to_stringEi', '_ZNSt7__cxx119to_stringEm', '_ZNSt7__cxx119to_stringEl'):
+        ex.summaries[n_] = lambda e, st, args, ins, _h=to_string: _h(e, st, args, ins, None)
+
     def gsl_strerror(ex_, st, args, ins, name):
         o = st.alloc(16, 'global', 'gsl_strerror', 'global')
         for i, b in enumerate(b'gsl error\0'):
@@ -516,3 +526,31 @@ def install_string(ex):
         return None
     for n in ('_ZNSt8ios_base4InitC1Ev', '_ZNSt8ios_base4InitD1Ev', '_ZNKSt5ctypeIcE13_M_widen_initEv'):
         I[n] = none
+
+
+def install_complex(ex):
+    I = ex.intr
+
+    def cexp(ex_, st, args, ins, name):
+        re, im = args
+        d = ex.dom
+        c = d.libm('cos', [im])
+        s = d.libm('sin', [im])
+        if not isinstance(re, Term) and re == 0:
+            return [c, s]
+        e = d.libm('exp', [re])
+        return [d.mul(e, c), d.mul(e, s)]
+    I['cexp'] = cexp
+
+    def muldc3(ex_, st, args, ins, name):
+        a, b, c, d_ = args
+        d = ex.dom
+        return [d.sub(d.mul(a, c), d.mul(b, d_)), d.add(d.mul(a, d_), d.mul(b, c))]
+    I['__muldc3'] = muldc3
+
+    def divdc3(ex_, st, args, ins, name):
+        a, b, c, d_ = args
+        d = ex.dom
+        den = d.add(d.mul(c, c), d.mul(d_, d_))
+        return [d.div(d.add(d.mul(a, c), d.mul(b, d_)), den), d.div(d.sub(d.mul(b, c), d.mul(a, d_)), den)]
+    I['__divdc3'] = divdc3
